@@ -1240,7 +1240,7 @@ def _run(ctx, z):
 
     # --- (d) threads on distinct documents
     if ctx.thorough:
-        thread_soak(ctx, z, reported, 60.0)
+        thread_soak(ctx, z, reported, 60.0 * min(1.0, float(os.environ.get('VERIF_SCALE', '1'))))
 
     ctx.assumptions.append('isolation is checked at operation granularity (one public call); finer interleavings are covered only by the absence of '
                            'shared mutable state ((a),(b)) and the thread soak of the thorough tier; C-level races in numpy/ElementTree/zipfile are outside the model')
